@@ -33,7 +33,10 @@ NID_VARIANTS = [        # other "exactly one field differs" pairs, used by the t
     ('text', 'subject-1 '), ('format', 'urn:oasis:names:tc:SAML:2.0:nameid-format:transient'),
     ('name_qualifier', 'urn:verif:idp2'), ('sp_provided_id', 'x'), ('text', 'subject-1,x=y'),
     ('text', 'Subject-1'),
+    # the field is absent in one of the two identifiers
+    ('sp_name_qualifier', None), ('name_qualifier', None), ('format', None),
 ]
+ABSENT_VARIANTS = NID_VARIANTS[-3:]
 SRC = {'i1': 'urn:verif:idp1', 'i2': 'urn:verif:idp2', 'i3': 'urn:verif:aa'}
 SRC_REV = dict((v, k) for k, v in SRC.items())
 
@@ -361,7 +364,7 @@ def main():
         raise fw.Machinery('the specification violates its own contract: %s\n%s' % (res.violated, res.text[-2000:]))
     edges = res.cases
     maxt = 3 if thorough else 2
-    variants = [None] + (NID_VARIANTS if thorough else NID_VARIANTS[:1])
+    variants = [None] + (NID_VARIANTS if thorough else NID_VARIANTS[:1] + ABSENT_VARIANTS)
     jobs = []
     for k, e in enumerate(edges):
         e['maxt'] = maxt
